@@ -88,6 +88,14 @@ Theorem c01_case_actors_wf : forall (l : log) (acts : list (list cop)),
 Proof. exact actors_of_wf. Qed.
 Print Assumptions c01_case_actors_wf.
 
+(* ... and so do the actors of every mixed case (whole runs - unlinked, or linked to a thread and closing
+   with append_run_ended - next to store writers): well-formed programs on pairwise distinct session streams *)
+Theorem c01_mix_case_actors_ok : forall (l : log) (acts : list (list mop)),
+  forallb (forallb (mop_ok cop_ok)) acts = true ->
+  progs_wf (mix_actors l acts) /\ sess_distinct (mix_actors l acts).
+Proof. exact mix_actors_ok. Qed.
+Print Assumptions c01_mix_case_actors_ok.
+
 (* the task counter: any number of concurrent emitters of any tasks - the stdout pump, the stderr
    pump and the control paths of one task share its counter - under any schedule; the span of the
    guard in TaskEmitter::emit (lock .. choose .. publish .. log append .. unlock) is re-extracted from
